@@ -1361,7 +1361,7 @@ reg("C12", cases_C12)
 reg("C20", cases_C20, post=post_C20, extra=extra_C20)
 reg("C19", cases_C19)
 reg("C06", cases_C06)
-reg("C01", cases_C01, threaded=True)
+reg("C01", cases_C01, threaded=True, std_too=True)
 reg("C02", cases_C02, post=post_C02)
 reg("C13", cases_C13, post=post_C13)
 reg("C14", cases_C14, post=post_C14)
